@@ -117,3 +117,45 @@ func FlipSig(compact []byte) []byte {
 	raw[len(raw)/2] ^= 0x01
 	return []byte(h + "." + p + "." + b64.EncodeToString(raw))
 }
+
+// SigPart is one signature of a JSON-serialised JWS.
+type SigPart struct {
+	Protected string `json:"protected"`
+	Signature string `json:"signature"`
+}
+
+// GeneralJSON returns the general JSON serialisation with one signature per (headers, key) pair.
+func GeneralJSON(payload []byte, headers []map[string]any, keys []Key) []byte {
+	p := b64.EncodeToString(payload)
+	sigs := []SigPart{}
+	for i, h := range headers {
+		hb, _ := json.Marshal(h)
+		prot := b64.EncodeToString(hb)
+		sig := keys[i].SignES256([]byte(prot + "." + p))
+		sigs = append(sigs, SigPart{prot, b64.EncodeToString(sig)})
+	}
+	out, _ := json.Marshal(map[string]any{"payload": p, "signatures": sigs})
+	return out
+}
+
+// Flattened returns the flattened JSON serialisation of a compact token.
+func Flattened(compact []byte) []byte {
+	h, p, s := Split(compact)
+	out, _ := json.Marshal(map[string]any{"payload": p, "protected": h, "signature": s})
+	return out
+}
+
+// General returns the general JSON serialisation (single signature) of a compact token.
+func General(compact []byte) []byte {
+	h, p, s := Split(compact)
+	out, _ := json.Marshal(map[string]any{"payload": p, "signatures": []SigPart{{h, s}}})
+	return out
+}
+
+// HS256 builds a compact token MACed with secret.
+func HS256(headers map[string]any, payload []byte, secret []byte) []byte {
+	hb, _ := json.Marshal(headers)
+	in := b64.EncodeToString(hb) + "." + b64.EncodeToString(payload)
+	mac := hmacSHA256(secret, []byte(in))
+	return []byte(in + "." + b64.EncodeToString(mac))
+}
